@@ -45,6 +45,12 @@ Qed.
 Lemma forgetVersion_noop before err c ev : before <> 0 -> forgetVersion before err c ev = (tt, c, ev).
 Proof. intros H. unfold forgetVersion. msimpl. destruct (N.eqb_spec before 0); [contradiction | reflexivity]. Qed.
 
+Lemma forgetTag_noop before err c ev : c_theirTag c = before -> forgetTag before err c ev = (tt, c, ev).
+Proof.
+  intros H. unfold forgetTag. destruct ((before =? 0) && negb (err =? 0)) eqn:E; msimpl; [|reflexivity].
+  apply andb_prop in E as [E _]. apply N.eqb_eq in E. subst before. destruct c; cbn in *; subst; reflexivity.
+Qed.
+
 Theorem rejected_data_message_is_inert now c ver stag rtag d aux rnd e :
   isOTREnabled (c_policies c) = true -> c_msgState c = c_encrypted -> header_ok c ver stag rtag ->
   recvDataMsg (c_keys c) d (fst (draw c)) = Err e ->
@@ -87,23 +93,23 @@ Proof.
   rewrite He. cbn [negb andb].
   destruct (N.land (af_flag (d_fields d)) c_messageFlagIgnoreUnreadable =? c_messageFlagIgnoreUnreadable) eqn:Ei.
   - (* flagged ignore-unreadable: dropped silently *)
-    rewrite !N.eqb_refl. msimpl. rewrite (forgetVersion_noop ver) by exact Hver. unfold finish, withInjects. msimpl.
+    rewrite !N.eqb_refl. msimpl. rewrite (forgetVersion_noop ver) by exact Hver. rewrite forgetTag_noop by reflexivity. unfold finish, withInjects. msimpl.
     rewrite ?N.eqb_refl. cbn iota. cbn [r_plain r_out r_err].
     split; [reflexivity|]. split; [exists []; rewrite app_nil_r; auto | reflexivity].
   - cbn iota. rewrite He. msimpl.
     destruct (N.eqb_spec e 3) as [->|H3].
-    + change (3 =? 0) with false. msimpl. rewrite (forgetVersion_noop ver) by exact Hver. unfold finish, withInjects. msimpl. change (3 =? 0) with false. cbn iota.
+    + change (3 =? 0) with false. msimpl. rewrite (forgetVersion_noop ver) by exact Hver. rewrite forgetTag_noop by reflexivity. unfold finish, withInjects. msimpl. change (3 =? 0) with false. cbn iota.
       cbn [r_plain r_out r_err].
       split; [reflexivity|]. split; [exists []; rewrite app_nil_r; auto | reflexivity].
     + destruct (N.eqb_spec e 2) as [->|H2].
       * change (2 =? 0) with false. unfold generatePotentialErrorMessage. msimpl.
-        destruct (c_errHandler c) eqn:Eh; msimpl; rewrite (forgetVersion_noop ver) by exact Hver;
+        destruct (c_errHandler c) eqn:Eh; msimpl; rewrite (forgetVersion_noop ver) by exact Hver; rewrite forgetTag_noop by reflexivity;
           unfold finish, withInjects; msimpl; change (2 =? 0) with false; msimpl; cbn [r_plain r_out r_err].
         -- split; [reflexivity|]. split; [|apply set_set_inj].
            exists [WError [c_ErrorCodeMessageUnreadable]]. split; [reflexivity | right; eexists; reflexivity].
         -- split; [reflexivity|]. split; [|reflexivity]. exists []. rewrite app_nil_r. auto.
       * rewrite He. unfold generatePotentialErrorMessage. msimpl.
-        destruct (c_errHandler c) eqn:Eh; msimpl; rewrite (forgetVersion_noop ver) by exact Hver;
+        destruct (c_errHandler c) eqn:Eh; msimpl; rewrite (forgetVersion_noop ver) by exact Hver; rewrite forgetTag_noop by reflexivity;
           unfold finish, withInjects; msimpl; rewrite ?He; msimpl; cbn [r_plain r_out r_err].
         -- split; [reflexivity|]. split; [|apply set_set_inj].
            exists [WError [c_ErrorCodeMessageMalformed]]. split; [rewrite He; reflexivity | right; eexists; reflexivity].
